@@ -6,7 +6,8 @@
 EXTENDS FzfScreen
 
 CONSTANTS Widths, Heights, Layouts, Infos, Seps, Headers, Hlines, HeaderFirsts, Inputless, Pointers, Markers,
-          Ellipses, Lists, Multis, Queries, MaxCount
+          Ellipses, Lists, Multis, Queries, MaxCount,
+          Acts          \* enabled steps: subset of {"edit", "move", "toggle", "list", "resize"}
 
 VARIABLES g, c, s
 vars == <<g, c, s>>
@@ -50,7 +51,11 @@ Toggle == /\ s.multi > 0 /\ N(s) > 0
           /\ UNCHANGED <<g, c>>
 NewList == \E l \in Lists : s' = View([s EXCEPT !.list = l, !.texts = TextsOf(l)], g, c) /\ UNCHANGED <<g, c>>
 Resize == \E g2 \in Geoms : g' = g2 /\ s' = View(s, g2, c) /\ UNCHANGED c
-Next == Edit \/ Move \/ Toggle \/ NewList \/ Resize
+Next == \/ "edit" \in Acts /\ Edit
+        \/ "move" \in Acts /\ Move
+        \/ "toggle" \in Acts /\ Toggle
+        \/ "list" \in Acts /\ NewList
+        \/ "resize" \in Acts /\ Resize
 
 -----------------------------------------------------------------------------
 R == Render(s, g, c)
@@ -93,6 +98,10 @@ MCHlines == {<<>>, <<<<"x", "1">>>>, <<<<"x", "1">>, <<"x", "2">>>>}
 MCHlinesQ == {<<>>, <<<<"x", "1">>, <<"x", "2">>>>}
 MCLists == {<<>>, <<0>>, <<1, 0, 2>>, <<0, 1, 2, 3, 4, 5>>}
 MCListsQ == {<<>>, <<1, 0, 5>>, <<0, 1, 2, 3, 4>>}
+MCListsP == {<<>>, <<1, 0, 5, 2>>}
+MCListsC == {<<1, 2, 4, 5, 3>>}
+MCHeadersL == {<<<<"h", "e", "a", "d", "e", "r", " ", "t", "w", "o", " ", "!">>>>}
+MCQueriesC == {<<>>}
 MCQueries == {<<>>, <<"a">>, <<"a", " ", "W">>, <<"q", "u", "e", "r", "y", "l", "o", "n", "g", "e", "r">>}
 MCQueriesQ == {<<>>, <<"a", " ", "W">>}
 =============================================================================
